@@ -19,5 +19,9 @@ theorem inv2_kstep (st st' : St) (k : Kt) (pc : KPc) (e : Env) (h : Inv1 st) (h2
   | xor c => simp [hpc, kTok, kHolds] at hk0; crunch2
   | xio c => simp [hpc, kTok, kHolds] at hk0; crunch2
   | xtake s => simp [hpc, kTok, kHolds] at hk0; crunch2
+  | reg0 s c r => simp [hpc, kTok, kHolds] at hk0 hlt hwt; crunch2
+  | chk2 s c => simp [hpc, kTok, kHolds] at hk0; crunch2
+  | own s => simp [hpc, kTok, kHolds] at hk0; crunch2
+  | ownDis s c => simp [hpc, kTok, kHolds] at hk0 hlk hwk; crunch2
 
 end MayVerif.Io
